@@ -256,14 +256,16 @@ TagConflict(p, l) ==
 \* cannot be listed.  No document containing both can be valid; what gfapy does then is not specified.
 WrongKindForPlaceholder(st, l) ==
   Named(l) /\ ((l.name \in VirtSegIds(st) /\ l.rt # "S")
-               \/ l.name \in Mentions(l)          \* a line that mentions its own identifier
                \/ (l.name \in UnknownIds(st) /\ l.rt \notin {"S", "E", "G", "O", "U"}))
+\* a line that mentions its own identifier: not specified
+SelfMention(l) == Named(l) /\ l.name \in Mentions(l)
 
 AddDecided(st, l) ==
   LET lv == LineVersion(l) IN
   IF lv # "any" /\ lv # st.ver THEN {Fail(st, "VersionError")}
   ELSE IF l.rt = "#" THEN {Ok([st EXCEPT !.lines = Append(@, l)])}
-  ELSE IF WrongKindForPlaceholder(st, l) THEN {[st |-> st, res |-> "unmodelled"]}
+  ELSE IF SelfMention(l) THEN {[st |-> st, res |-> "unmodelled"]}
+  ELSE IF WrongKindForPlaceholder(st, l) THEN {Fail(st, "NotUniqueError"), Fail(st, "Error")}
   ELSE IF SegMentions(l) \cap (NamesOf(st) \ SegIds(st)) # {}
     \* a segment is mentioned under an identifier that a line of another type carries
     THEN {Fail(st, "NotUniqueError"), Fail(st, "Error")}
